@@ -44,7 +44,8 @@ class C14(Check):
                 yield {"kind": "metric", "F": enc(F), "style": style, "label": label, "n_remove": crowd.pick_n_remove(self.rng, len(F), F.shape[1]),
                        "seed": self.rng.randrange(2 ** 31), "raw": True, "layout": self.rng.choice(layouts.LAYOUTS[1:])}
                 continue
-            F, style = crowd.gen_front(self.rng)
+            # fronts with a constant objective are named by the property: one case in five
+            F, style = crowd.gen_front(self.rng, styles=["const"] if self.rng.random() < 0.2 else None)
             label = self.rng.choice(["mnn", "2nn", "pcd"])
             yield {"kind": "metric", "F": enc(F), "style": style, "label": label, "n_remove": crowd.pick_n_remove(self.rng, len(F), F.shape[1]), "seed": self.rng.randrange(2 ** 31)}
 
